@@ -57,6 +57,19 @@ def features(sel):
     return "+".join(f) or "plain"
 
 
+def doc_size(doc):
+    """Number of selection nodes of a document (cheap fingerprint: a rule that grows the tree it measures is caught at once)."""
+    def count(sels):
+        n = 0
+        for x in sels:
+            n += 1
+            ss = getattr(x, "selection_set", None)
+            if ss is not None:
+                n += count(ss.selections)
+        return n
+    return sum(count(d.selection_set.selections) for d in doc.definitions)
+
+
 def _worker(behs):
     from py_gql import build_schema, process_graphql_query
     from py_gql.lang import parse, print_ast
@@ -79,6 +92,8 @@ def _worker(behs):
                 docs.clear()
             doc = docs[text] = parse(text)
         printed_before = print_ast(doc)
+        size_before = doc_size(doc)
+        modified = False
         variables = {"v": b["v"]} if var else {}
         fl = b["flagged"]
         feat = features(sel)
@@ -111,8 +126,13 @@ def _worker(behs):
                 if got != exp:
                     kind = "not-flagged" if len(got) < len(exp) else ("spurious-flag" if len(got) > len(exp) else "wrong-operation")
                     out.setdefault("depth/%s/%s" % (kind, feat), ["flagged operations differ from the specification", dict(wit, got=got)])
+                if doc_size(doc) != size_before:
+                    modified = True
+                    break
+            if modified:
+                break
         # a validator reads the document: the tree it was given is the same afterwards (servers cache parsed documents)
-        if print_ast(doc) != printed_before:
+        if modified or print_ast(doc) != printed_before:
             out.setdefault("depth/document-modified/%s" % feat, ["the rule changed the document it measured", {"text": text, "after": print_ast(doc)[:600]}])
             docs.pop(text, None)
         # ---- the same selection as the document's only, ANONYMOUS operation: a name filter selects nothing, no filter measures it
